@@ -5,4 +5,4 @@ P=$(readlink -f "$1"); shift
 git -C $REPO diff --quiet || { echo "$REPO dirty"; exit 2; }
 git -C $REPO apply "$P" || exit 2
 trap 'git -C $REPO checkout -- . ; git -C $REPO clean -fdq -e target' EXIT
-cd /verif && "$@"
+cd ${VDIR:-/verif} && "$@"
